@@ -546,7 +546,8 @@ class C14(PropBase):
             elif k == 10:
                 code = near(rng.choice(["ExceptionCodeWindows", "NtStatusWindows", "WinErrorWindows"]))
             else:
-                code = rng.below(1 << 32)
+                # also values with fewer than 8 hex digits: the zero-padded `unknown 0x........` rendering
+                code = rng.choice([rng.below(1 << 32), rng.below(1 << 32), 0x10000000 | rng.below(1 << 16), 0x3ff0 + rng.below(16), rng.below(1 << 24)])
             flags = rng.choice([0, 1, rng.below(1 << 32)])
         elif osc == OS_MAC or (osc == OS_OTHER and rng.chance(1, 2)):
             code = rng.choice([1, 1, 2, 2, 3, 3, 5, 6, 6, 4, 7, 8, 9, 10, 11, 11, 12, 12, 13, 0, 0x43507378, rng.below(1 << 32)])
@@ -580,9 +581,11 @@ class C14(PropBase):
                 flags = rng.below(1 << 32) if rng.chance(1, 3) else rng.below(10)
         e["code"], e["flags"] = code & U32, flags & U32
         e["np"] = rng.choice([0, 1, 2, 3, 4, 15, rng.below(16)])
-        e["i0"] = rng.choice([0, 1, 8, 2, 3, 0x100000000, 0x100000001, rng.below(1 << 64), rng.below(100)])
+        e["i0"] = rng.choice([0, 1, 8, 2, 3, 0x100000000, 0x100000001, rng.below(1 << 64), rng.below(100), 0x1000 + rng.below(1 << 12)])
         e["i1"] = rng.choice([0, 0xdeadbeef, 0xffffffff80001234, 0x100000010, U64, rng.below(1 << 64), rng.below(1 << 32)])
-        e["i2"] = rng.choice([member("NtStatusWindows"), member("NtStatusWindows") | (rng.below(1 << 32) << 32), rng.below(1 << 64), 0])
+        # information[2] of an in-page error: a named NTSTATUS, or a value rendered in hex - also with fewer than 8 digits (zero padding)
+        e["i2"] = rng.choice([member("NtStatusWindows"), member("NtStatusWindows") | (rng.below(1 << 32) << 32), rng.below(1 << 64), 0,
+                              near("NtStatusWindows"), 0x7ff0 + rng.below(16), (rng.below(1 << 32) << 32) | rng.below(1 << 20)])
         if code in (11, 12) and osc != OS_WIN and osc != OS_LINUX and rng.chance(3, 4):
             # EXC_RESOURCE / EXC_GUARD: information[1] carries a flavor (bits 58..60 resp. 32..60) and bit fields, [2] the subcode
             if code == 11:
